@@ -396,6 +396,19 @@ def _r25d(chk, repo) -> None:
 from ..selftest import Variant  # noqa: E402
 
 VARIANTS = [
+    # behaviour-preserving edits: the check must stay quiet (selftest.QUIET)
+    Variant(
+        "quiet-hoist-abspath-of-walk-dirname", DISC,
+        "        for inner_dirname, inner_file, inner_spec in inner_ignore_specs[:]:\n            if not (\n                dirname == inner_dirname\n                or os.path.abspath(dirname).startswith(\n",
+        "        here = os.path.abspath(dirname)\n        for inner_dirname, inner_file, inner_spec in inner_ignore_specs[:]:\n            if not (\n                dirname == inner_dirname\n                or here.startswith(\n",
+        "QUIET", None, "absolutised walk directory hoisted into a local",
+    ),
+    Variant(
+        "quiet-rename-locals-and-early-continue", DISC,
+        "            relative_path = os.path.join(dirname, filename)\n            absolute_path = os.path.abspath(relative_path)\n",
+        "            rel = os.path.join(dirname, filename)\n            relative_path = rel\n            absolute_path = os.path.abspath(rel)\n",
+        "QUIET", None, "join result passed through a second local",
+    ),
     Variant(
         "containment-by-commonprefix", DISC,
         "                or os.path.abspath(dirname).startswith(\n                    os.path.abspath(inner_dirname) + os.sep\n                )\n",
